@@ -299,16 +299,19 @@ impl Track {
                 EventType::DirectSMF => {},
             }
         }
+        // re-issue the latest controller values and program ahead of the remaining events
+        let mut restored: Vec<Event> = vec![];
         // add cc
         for no in 0..128 {
             if cc_values[no] < 0 { continue; }
-            events.push(Event::cc(0, ch, no as isize, cc_values[no as usize]));
+            restored.push(Event::cc(0, ch, no as isize, cc_values[no as usize]));
         }
         // voice
         if voice >= 0 {
-            events.push(Event::voice(0, ch, voice));
+            restored.push(Event::voice(0, ch, voice));
         }
-        self.events = events;
+        restored.append(&mut events);
+        self.events = restored;
     }
     pub fn calc_v_on_time(&mut self, def: isize) -> isize {
         let start_time = self.v_on_time_start;
